@@ -570,9 +570,12 @@ def units(tier, seed):
         us.append(Unit("step W=%d routes=%s srcs=%s aliases=%s" % (
             W, routes, srcs, "".join(map(str, nal))), h_step,
             dict(W=W, routes=routes, srcs=srcs, n_aliases=nal), split=split,
-            witnesses=("merged",), path_timeout_s=300, timeout_ms=300000))
-    step(2, "AAB", "uuu", (0, 0, 2))
+            witnesses=("merged",), path_timeout_s=900, timeout_ms=900000))
     step(2, "AAB", "udu", (2, 0, 0))
+    if tier == "thorough":
+        # (1 500 paths, one to seven CPU-minutes of solver time depending on
+        # the load of the machine: thorough only)
+        step(2, "AAB", "uuu", (0, 0, 2), split=7)
     us.append(Unit("tables two chips W=2 A=AA B=BA target=dict", h_two_chips,
                    dict(W=2, routes_a="AA", routes_b="BA", srcs_b="du",
                         target="dict"), split=5,
